@@ -267,13 +267,26 @@ def bool_switch_true_target(body, bb):
     return None
 
 
-def path_records(body, limit=20000):
+def iteration_paths(body, limit=20000):
+    """Block paths of one iteration of each natural loop: header -> .. -> header."""
+    out = []
+    for h, blk in sorted(body.natural_loops().items()):
+        for s0 in body.succs(h):
+            if s0 not in blk:
+                continue
+            for path, stop in body.const_paths(s0, {h}, limit=limit):
+                if stop == h:
+                    out.append([h] + path + [h])
+    return out
+
+
+def path_records(body, limit=20000, paths=None):
     """Per entry->return path: decisions on enum discriminants / bool tests, calls, aggregates, outcome.
 
     decision = (subject_text, subject_params, value) where value is a variant name, or True/False for bool
     switches, or an int.  Infeasible combinations produced by drop-flag switches are harmless duplicates."""
     recs = []
-    for path in body.paths(limit=limit):
+    for path in (paths if paths is not None else body.paths(limit=limit)):
         if body.term(path[-1])["k"] == "unreachable":
             continue  # compiler-proved infeasible arm
         decisions = []
